@@ -241,6 +241,9 @@ func GenNode(r *Rng, c *GenCfg, depth int, root bool) *Node {
 		}
 		kinds = append(kinds, k)
 	}
+	if len(kinds) == 0 {
+		kinds = []string{"string"}
+	}
 	kind := Pick(r, kinds)
 	if root {
 		// mostly structs at the root; any kind otherwise
